@@ -55,6 +55,7 @@ fn main() {
                 runs_override: env_u64("VERIF_RUNS"),
                 max_s: env_u64("VERIF_MAX_S").unwrap_or(if tier == "quick" { 600 } else { 6 * 3600 }),
                 per_run_wall_s: 120,
+                asan_bin: std::env::var("VERIF_ASAN_BIN").ok().filter(|p| std::path::Path::new(p).exists()),
             };
             resolvo_sim::run::set_quiet(true);
             let code = orchestrate::run_check(prop.as_ref(), &tier, &cfg);
@@ -72,8 +73,9 @@ fn main() {
             // library are not guaranteed the 8 MiB of a main thread, and recursion that grows with the input shows here.
             let id = args[2].clone();
             drop(prop);
+            let stack_mb = env_u64("VERIF_STACK_MB").unwrap_or(2) as usize;
             let h = std::thread::Builder::new()
-                .stack_size(2 << 20)
+                .stack_size(stack_mb << 20)
                 .spawn(move || {
                     let prop = property(&id).expect("unknown property");
                     orchestrate::worker(prop.as_ref(), tier, a, b, c, d, e)
@@ -107,6 +109,58 @@ fn main() {
                     std::process::exit(1);
                 }
                 println!("replay: 12 fresh processes agree on this scenario");
+                std::process::exit(0);
+            }
+            if rf.class.starts_with("memory-error:") && std::env::var("VERIF_ASAN_CHILD").is_err() {
+                // the stored run killed its sanitizer worker: run it in a fresh child of the sanitizer build and read
+                // the report
+                let Some(bin) = std::env::var("VERIF_ASAN_BIN").ok().filter(|p| std::path::Path::new(p).exists()) else {
+                    eprintln!("harness error: the sanitizer build is not available (VERIF_ASAN_BIN)");
+                    std::process::exit(2);
+                };
+                let out = std::process::Command::new(&bin)
+                    .args(["replay", &args[2]])
+                    .env("VERIF_ASAN_CHILD", "1")
+                    .env("ASAN_OPTIONS", orchestrate::ASAN_OPTIONS)
+                    .output()
+                    .expect("spawn sanitizer child");
+                let err = String::from_utf8_lossy(&out.stderr);
+                match orchestrate::asan_kind(&err) {
+                    Some(kind) if format!("memory-error:{kind}") == rf.class => {
+                        println!("VIOLATION property={} replay={}", rf.property, args[2]);
+                        println!("  class={}", rf.class);
+                        println!("  {}", err.lines().find(|l| l.contains("ERROR: AddressSanitizer")).unwrap_or("").trim());
+                        std::process::exit(1);
+                    }
+                    Some(kind) => {
+                        println!("replay produced a different memory error: {kind} (stored: {})", rf.class);
+                        std::process::exit(3);
+                    }
+                    None => {
+                        print!("{}", String::from_utf8_lossy(&out.stdout));
+                        println!("replay: no memory error reported by the sanitizer build on this scenario");
+                        std::process::exit(if out.status.code() == Some(1) { 3 } else { 0 });
+                    }
+                }
+            }
+            if rf.class.starts_with("memory-error:") {
+                // sanitizer child: run on a large stack like the sanitizer workers do
+                let sc = rf.scenario.clone();
+                let id = rf.property.clone();
+                let h = std::thread::Builder::new()
+                    .stack_size(32 << 20)
+                    .spawn(move || {
+                        let prop = property(&id).expect("unknown property");
+                        // as in a worker: once with the tracing probes (which format what they are shown) and once without
+                        resolvo_sim::probes::set_on(true);
+                        let _ = prop.judge(&sc);
+                        let _ = resolvo_sim::probes::take();
+                        resolvo_sim::probes::set_on(false);
+                        let v = prop.judge(&sc);
+                        println!("replay (sanitizer child): finished without a memory error; result: {}", v.summary);
+                    })
+                    .expect("spawn");
+                let _ = h.join();
                 std::process::exit(0);
             }
             // watchdog: a scenario that hangs the process is a violation of its own (hard-crash class)
